@@ -167,6 +167,9 @@ func C15(c *Ctx) {
 		Variants: [][]string{{}, {"-optimize-basic-latin"}, {"-optimize-parser"}, {"-optimize-parser", "-optimize-basic-latin"}},
 		Cases: func(gi int, g *gast.Grammar) []*mon.Case {
 			var cs []*mon.Case
+			// the parse the harness made while the package was being initialised (tables that are filled
+			// at start-up must be there before anything of the package can be called)
+			cs = append(cs, &mon.Case{InitProbe: true, NoTrace: true})
 			if rep[g] {
 				for _, ru := range g.Rules {
 					for _, in := range repInputs {
